@@ -19,7 +19,7 @@
 //! period, keeping the repository compact.
 //!
 use crate::errors::Result;
-use crate::server::encryption::{Cryptor, Sealed, Unsealed};
+use crate::server::encryption::{Cryptor, Sealed, Secret, Unsealed};
 use crate::server::{
     AddVersionResult, GetVersionResult, HistorySegment, Server, Snapshot, SnapshotUrgency,
     VersionId,
@@ -85,6 +85,7 @@ pub(crate) struct GitSyncServer {
     branch: String,
     remote: Option<String>,
     local_only: bool,
+    encryption_secret: Secret,
     cryptor: Cryptor,
     /// Minimum age a version file must reach before cleanup() will remove it.
     version_retention: Duration,
@@ -224,7 +225,8 @@ impl GitSyncServer {
     ) -> Result<GitSyncServer> {
         let git = Git::new(git_path);
         let meta = Self::init_repo(&git, &local_path, &branch, remote.as_deref(), local_only)?;
-        let cryptor = Cryptor::new(&meta.salt, &encryption_secret.into())?;
+        let encryption_secret = encryption_secret.into();
+        let cryptor = Cryptor::new(&meta.salt, &encryption_secret)?;
         let server = GitSyncServer {
             git,
             meta,
@@ -232,6 +234,7 @@ impl GitSyncServer {
             branch,
             remote,
             local_only,
+            encryption_secret,
             cryptor,
             version_retention: VERSION_RETENTION,
         };
@@ -326,7 +329,13 @@ impl GitSyncServer {
 
     /// Read the meta file from disk and update self.meta.
     fn read_meta(&mut self) -> Result<()> {
-        self.meta = load_meta(&self.local_path.join("meta"))?;
+        let meta = load_meta(&self.local_path.join("meta"))?;
+        // The salt changes when this clone and another one both initialised an empty remote and
+        // the other one's meta file won: everything in the repository is sealed with that salt.
+        if meta.salt != self.meta.salt {
+            self.cryptor = Cryptor::new(&meta.salt, &self.encryption_secret)?;
+        }
+        self.meta = meta;
         Ok(())
     }
 
@@ -739,6 +748,7 @@ impl Server for GitSyncServer {
 
     async fn add_snapshot(&mut self, version_id: VersionId, snapshot: Snapshot) -> Result<()> {
         self.reset_to_remote()?;
+        self.read_meta()?;
         // Write the snapshot to a file.
         // If another replica has pushed a snapshot for a later version in the chain between
         // our reset_to_remote and our push, we will overwrite it. This is harmless. A replica
@@ -778,6 +788,7 @@ impl Server for GitSyncServer {
 
     async fn get_snapshot(&mut self) -> Result<Option<(VersionId, Snapshot)>> {
         self.reset_to_remote()?;
+        self.read_meta()?;
 
         let snapshot_path = self.local_path.join("snapshot");
         if let Ok(file) = File::open(&snapshot_path) {
